@@ -110,7 +110,7 @@ def busy_close_case(draw, tier="quick"):
 
 
 def run_lifecycle(case: dict) -> Outcome:
-    flags = {"reconfig_dropped": False, "reset_overtook_data": False}
+    flags = {"reconfig_dropped": False, "reset_overtook_data": False, "open_on_closing": False}
     out = _run_lifecycle(case, flags)
     out.info.update(flags)
     return out
@@ -222,6 +222,18 @@ def _run_lifecycle(case: dict, flags: dict) -> Outcome:
                 await orig_chunk(chunk)
 
             t._receive_chunk = wrapped_chunk  # type: ignore[method-assign]
+            # ... and a DATA_CHANNEL_OPEN that arrives for a stream whose previous channel is still 'closing' here (the
+            # peer's answer to this side's reset request is still on its way) is ignored - third finding
+            orig_dc = t._data_channel_receive
+
+            async def wrapped_dc(stream_id, pp_id, data, t=t, orig_dc=orig_dc):
+                if pp_id == 50 and len(data) >= 12 and data[0] == 3:
+                    existing = t._data_channels.get(stream_id)
+                    if existing is not None and existing.readyState == "closing":
+                        flags["open_on_closing"] = True
+                await orig_dc(stream_id, pp_id, data)
+
+            t._data_channel_receive = wrapped_dc  # type: ignore[method-assign]
             orig = t._receive_reconfig_param
 
             async def wrapped(param, t=t, orig=orig):
@@ -427,6 +439,8 @@ CHECK = Check(
         "reconfig-not-retransmitted": lambda fam, case, out: out.kind in ("close-incomplete", "transcript-extra-message", "transcript-corrupted",
                                                                          "datachannel-unmatched", "datachannel-fields", "never-opened", "undelivered") and bool(out.info.get("reconfig_dropped")),
         # besides the half-closed channel, the old stream's late DATA can then surface on a channel that reuses the id
+        "open-overtakes-reset-response": lambda fam, case, out: out.kind in ("never-opened", "datachannel-unmatched", "datachannel-fields", "undelivered",
+                                                                            "close-incomplete") and bool(out.info.get("open_on_closing")),
         "reset-overtakes-data": lambda fam, case, out: out.kind in ("close-incomplete", "transcript-extra-message", "transcript-corrupted",
                                                                    "datachannel-unmatched", "datachannel-fields", "never-opened", "undelivered") and bool(out.info.get("reset_overtook_data")),
     },
